@@ -170,11 +170,11 @@ cycle_c = Contract(
             ("stack-untouched (the cycle block pops it, but only on paths that leave the function)", "same(nodes, nodesL)"),
             ("next-are-fresh-dependencies-of-cur", "forall(lambda j: implies(0 <= j and j < len(next_nodes), next_nodes[j] in dependencies[cur] and next_nodes[j] not in seen and next_nodes[j] in dependencies.keys())) and len(next_nodes) >= 0"),
         ]),
-        3: dict(invariant=[
+        3: dict(decreases="len(nodes)", invariant=[
             ("prefix", "len(nodes) + npopped == len(nodes0) and npopped >= 0 and E0 < len(nodes) and forall(lambda j: implies(0 <= j and j < len(nodes), nodes[j] == nodes0[j]))"),
             ("popped-entries-are-in-play, priority = depth of the deepest popped copy", _POPPED),
         ]),
-        4: dict(invariant=[
+        4: dict(decreases="priorities[prev] + len(nodes0)", invariant=[
             ("dependents-untouched (`deps` is only read)", "same(dependents, dependentsW)"),
             ("walk-shape", "len(cycle) >= 2 and cycle[0] == nxt and cycle[len(cycle) - 1] == prev"),
             ("C07-each-step-follows-a-dependency", "forall(lambda i: implies(1 <= i and i < len(cycle), cycle[i] in dependencies.keys() and cycle[i - 1] in dependencies[cycle[i]]))"),
@@ -196,7 +196,7 @@ cycle_c = Contract(
         ("before", "deps = dependents[cycle[-1]]", "assert_(prev in inplay and prev != nxt and E0 < DJ[prev] and E0 <= push0[DJ[prev]] and nodes0[push0[DJ[prev]]] in inplay and prev in dependencies[nodes0[push0[DJ[prev]]]], 'the-entry-that-pushed-prev-is-in-play-and-depends-on-it')"),
     ],
     drop=["if keys is None", "if dependencies is None"],
-    note="partial correctness of getcycle's answer, including that the greedy walk never runs out of candidates (no ValueError/KeyError/IndexError); termination of the walk is bounded natively",
+    note="partial correctness of getcycle's answer, including that the greedy walk never runs out of candidates (no ValueError/KeyError/IndexError); the pop loop and the greedy walk terminate (the walk strictly descends in priority: the property the fix dda7948 restored); termination of the DFS loops is bounded natively",
 )
 
 CONTRACTS = [toposort, reverse_dict, cycle_c]
